@@ -210,14 +210,30 @@ def shared_object_uses(f, name: str):
 def class_state_writes(mod: Mod):
     """stores into mutable class-level attributes through self/cls, and mutated mutable default arguments"""
     out = []
+    def mutable_value(v):
+        """a display or constructor call that yields one mutable object (shared by whoever holds a reference to it)"""
+        if isinstance(v, (ast.Dict, ast.List, ast.Set, ast.ListComp, ast.DictComp, ast.SetComp)):
+            return True
+        if isinstance(v, ast.Call):
+            name = dotted_name(v.func) or ""
+            last = name.split(".")[-1]
+            if name in ("dict", "list", "set", "bytearray") or last in ("defaultdict", "OrderedDict", "deque", "Counter", "zeros", "empty", "ones", "array"):
+                return True
+            # a repository / library class instance: mutable unless it is a NamedTuple-like record or an enum member
+            if last and last[0].isupper() and last not in ("Path", "PurePath", "Fraction", "Decimal") and not last.isupper():
+                return last in mod.classes and not any((dotted_name(b) or "").split(".")[-1] in ("NamedTuple", "Enum", "IntEnum", "tuple", "str", "int", "float")
+                                                       for b in mod.classes[last].bases)
+        return False
+
     for cname, c in mod.classes.items():
         mutable = {}
+        if any((dotted_name(b) or "").split(".")[-1] == "NamedTuple" for b in c.bases):
+            continue
         for n in c.body:
-            if isinstance(n, ast.Assign) and len(n.targets) == 1 and isinstance(n.targets[0], ast.Name) \
-                    and isinstance(n.value, (ast.Dict, ast.List, ast.Set)) or (isinstance(n, ast.Assign) and isinstance(n.value, ast.Call)
-                                                                                and (dotted_name(n.value.func) or "") in ("dict", "list", "set")):
-                if isinstance(n.targets[0], ast.Name):
-                    mutable[n.targets[0].id] = n
+            if isinstance(n, ast.Assign) and len(n.targets) == 1 and isinstance(n.targets[0], ast.Name) and mutable_value(n.value):
+                mutable[n.targets[0].id] = n
+            if isinstance(n, ast.AnnAssign) and isinstance(n.target, ast.Name) and n.value is not None and mutable_value(n.value):
+                mutable[n.target.id] = n
         if not mutable:
             continue
         for q, f in mod.funcs.items():
@@ -239,10 +255,40 @@ def class_state_writes(mod: Mod):
     for q, f in mod.funcs.items():
         params = [a.arg for a in f.args.args]
         defaults = dict(zip(reversed(params), reversed(f.args.defaults)))
+        kwdefaults = {a.arg: d for a, d in zip(f.args.kwonlyargs, f.args.kw_defaults) if d is not None}
+        defaults.update(kwdefaults)
         for p, d in defaults.items():
-            if isinstance(d, (ast.Dict, ast.List, ast.Set)) or (isinstance(d, ast.Call) and (dotted_name(d.func) or "") in ("dict", "list", "set")):
+            if mutable_value(d):
                 if p in mutated_params(f):
                     out.append((q, d, f"mutable default argument {p} is mutated"))
+                    continue
+                # the default object escapes into an attribute of self that some method of the class then mutates
+                cname = q.rsplit(".", 1)[0] if "." in q else None
+                escaped = set()
+                for st in ast.walk(f):
+                    if isinstance(st, ast.Assign) and any(isinstance(x, ast.Name) and x.id == p for x in ast.walk(st.value)) and \
+                            (isinstance(st.value, ast.Name) or isinstance(st.value, (ast.IfExp, ast.BoolOp))):
+                        for t in st.targets:
+                            if isinstance(t, ast.Attribute) and isinstance(t.value, ast.Name) and t.value.id in ("self", "cls"):
+                                escaped.add(t.attr)
+                if cname and escaped:
+                    for q2, g in mod.funcs.items():
+                        if not q2.startswith(cname + "."):
+                            continue
+                        for st in ast.walk(g):
+                            tgt = None
+                            if isinstance(st, (ast.Assign, ast.AugAssign)):
+                                t0 = st.targets[0] if isinstance(st, ast.Assign) else st.target
+                                if isinstance(t0, ast.Subscript):
+                                    tgt = t0.value
+                            elif isinstance(st, ast.Call) and isinstance(st.func, ast.Attribute) and st.func.attr in MUTATORS:
+                                tgt = st.func.value
+                            if isinstance(tgt, ast.Attribute) and isinstance(tgt.value, ast.Name) and tgt.value.id == "self" and tgt.attr in escaped:
+                                out.append((q, d, f"mutable default argument {p} (one object for every call) is kept as self.{tgt.attr} and modified in {q2}"))
+                                break
+                        else:
+                            continue
+                        break
     return out
 
 
